@@ -48,7 +48,8 @@ func VerifExecuteWithoutConn(next bool, nHosts int, timeout time.Duration) (repl
 			n++
 		}
 	}()
-	cl := &client{ctx: context.Background(), proxy: p, codec: codecs.CustomRawCodec}
+	cl := &client{ctx: context.Background(), proxy: p}
+	cl.codec.Store(codecBox{codecs.CustomRawCodec})
 	cl.conn = proxycore.NewConn(a, verifNopReceiver{})
 	cl.conn.Start()
 	qp := lb.NewQueryPlan()
